@@ -36,6 +36,20 @@ BoundsWhy(e) ==
           ELSE IF Within(e.node, c, e.lo, hi) /\ e.clamp # e["in"] THEN "inbounds-changed"
           ELSE "ok"
 
+(* the same three conversions between the Alpha-wrapped forms of the two types (`a` is the transparency of the input): *)
+(* transparency rides along unchanged, clamps to [min_alpha, max_alpha] on its own and counts in the checked verdict     *)
+AlphaConvWhy(e) ==
+  IF "au" \notin DOMAIN e THEN "alpha-target-conversions-missing"
+  ELSE LET n == Len(e.u)
+           au == DySeq(e.au)  hi == EffHi(e.to, e.ahi)  sb == SB(e.to, e.ahi)
+       IN IF SubSeq(e.au, 1, n) # e.u \/ e.au[n + 1] # e.a THEN "alpha-conversion-changes-colour-or-alpha"
+          ELSE IF ~AllFin(e.ac) THEN "non-finite"
+          ELSE IF ~ClampOk(e.to, e.t, au, e.alo, hi, sb, DySeq(e.ac)) THEN "alpha-from_color-not-clamp-of-unclamped"
+          ELSE IF SubSeq(e.ac, 1, n) # e.c THEN "alpha-from_color-colour-differs-from-plain"
+          ELSE IF ~WithinFlagOk(e.to, e.t, au, e.alo, hi, sb, e.at_ok) THEN "alpha-try_from_color-verdict-wrong"
+          ELSE IF e.atv # e.au THEN "alpha-try_from_color-value-differs"
+          ELSE "ok"
+
 Conv3Why(e) ==
   IF e.panic # 0 THEN "panic"
   ELSE IF e.fin = 0 THEN "ok"            \* non-finite unclamped result: outside this property (C07)
@@ -50,6 +64,7 @@ Conv3Why(e) ==
           \* the Into* mirror images and the in-place guards (into_color_mut on a value and on a slice, unclamped on a value)
           ELSE IF "ic" \in DOMAIN e /\ (e.ic # e.c \/ e.iu # e.u \/ e.itv # e.tv \/ e.it_ok # e.t_ok) THEN "into-form-differs-from-from-form"
           ELSE IF "cmut" \in DOMAIN e /\ (e.cmut # e.c \/ e.cmuts # e.c \/ e.umut # e.u) THEN "in-place-guard-differs"
+          ELSE IF "a" \in DOMAIN e THEN AlphaConvWhy(e)
           ELSE "ok"
 
 ConstsWhy(e) ==
